@@ -1,4 +1,5 @@
 import Anndb.Proofs.HnswInv
+import Anndb.Generated
 import Anndb.Proofs.HeapLawful
 import Anndb.Model.ListPQ
 /-!
@@ -183,5 +184,14 @@ example : Good (run (Pmin := listPQ minLe) (Pmax := listPQ maxLe) (dist := fun a
   simp only [List.mem_cons, List.not_mem_nil, or_false] at hop
   rcases hop with rfl | rfl | rfl | rfl <;> try trivial
   exact pick_observed_ok none
+
+
+/-- **searches share nothing they write** (regenerated from `index/hnsw.go`): in the read path of the
+index — `Search`, `greedyClosestNeighbor`, `searchLevel`, `selectNeighbors*` — every assignment goes to
+a local variable (or into a local map / slice) and nothing is called but read-only accessors and the
+search's own local queues. Hence what the theorems of this file say about one search holds for each
+of any number of simultaneous searches on an index nobody writes (seeded changes C01-D / C07-D keep
+the visited marks on the vertices: simultaneous searches then return an id twice). -/
+theorem search_path_writes_nothing_shared : Generated.searchPathWritesNothingShared = true := by decide
 
 end Anndb.C01
